@@ -120,3 +120,93 @@ def run_tv(ctx, rep, floors=None, only_tags=None):
     for rule, fl in (floors or {}).items():
         rep.floor(rule, fl, 'translation-validated rules')
     return n
+
+
+def run_twins(ctx, rep, select, floors=None):
+    """compare every twin pair whose first program name satisfies select(name, kind)"""
+    import twins, tv_rules
+    pgs, skipped = all_programs(ctx, rep)
+    spec = load_spec(ctx)
+    by_name = {}
+    for pg in pgs:
+        if pg.ours:
+            by_name[pg.p.path.split('::')[0]] = pg
+    n = 0
+    for key, sp in sorted(spec.items()):
+        tw = sp.get('twin')
+        if not tw:
+            continue
+        name = sp['name']
+        other, kind = tw[0], tw[1]
+        par = name.endswith('_par')
+        if par and not other.endswith('_par') and (other + '_par') in by_name:
+            other = other + '_par'
+        if not select(name, kind):
+            continue
+        a, b = by_name.get(name), by_name.get(other)
+        if a is None or b is None:
+            raise Broken('twin pair %s / %s: program missing from the corpus facts' % (name, other))
+        n += 1
+        rep.programs.add(name); rep.programs.add(other)
+        where = 'twin %s ~ %s' % (name, other)
+        if kind in ('C', 'timeout', 'ruletimes'):
+            d = twins.diff_code(twins.code_model(a), twins.code_model(b))
+            rep.inst('T.C', '%s: normalised generated code identical: %s' % (where, d is None))
+            if d is not None:
+                rep.viol('T', where, 'code-differs', 'the two programs are documented to be equivalent but expand differently: ' + d)
+        elif kind == 'L':
+            d = twins.diff_logical(twins.logical_rules(a), twins.logical_rules(b))
+            rep.inst('T.L', '%s: reconstructed logical rule variants identical: %s' % (where, d is None))
+            if d is not None:
+                rep.viol('T', where, 'logic-differs', 'the two programs are documented to be equivalent but evaluate different rule sets: ' + d)
+        elif kind == 'generic':
+            d = twins.diff_logical(twins.logical_rules(a, shallow=True), twins.logical_rules(b, shallow=True))
+            rep.inst('T.G', '%s: same logical rule variants modulo the column type: %s' % (where, d is None))
+            if d is not None:
+                rep.viol('T', where, 'generic-differs', 'generic and monomorphic program evaluate different rule sets: ' + d)
+        elif kind == 'V':
+            k1 = tv_rules.check_program(a, sp, rep)
+            k2 = tv_rules.check_program(b, spec[b.crate + '::' + other], rep)
+            rep.inst('T.V', '%s: both programs translation-validated against their own (logically equivalent) text: %d + %d rules' % (where, k1, k2))
+        elif kind == 'S':
+            # both sides are translation-validated against their own spec; the specs are equal as sets modulo the renaming
+            ren = tw[2] if len(tw) > 2 else {}
+            sa, sb = spec_rules(sp, ren), spec_rules(spec[b.crate + '::' + other], {})
+            ok = sa == sb
+            tv_rules.check_program(a, sp, rep)
+            tv_rules.check_program(b, spec[b.crate + '::' + other], rep)
+            rep.inst('T.S', '%s: rule sets equal up to body order / renaming: %s (both sides translation-validated)' % (where, ok))
+            if not ok:
+                raise Broken('twin pair %s / %s: the corpus descriptions are not equivalent' % (name, other))
+        else:
+            raise Broken('unknown twin kind ' + kind)
+    for rule, fl in (floors or {}).items():
+        rep.floor(rule, fl, 'twin pairs')
+    return n
+
+
+def spec_rules(sp, ren):
+    import re
+
+    def rn(txt):
+        return re.sub(r'[A-Za-z_][A-Za-z0-9_]*', lambda m: ren.get(m.group(0), m.group(0)), txt or '')
+    out = []
+    for r in sp['rules']:
+        heads = tuple(sorted((rn(h['rel']), tuple(rn(a or '') for a in h['args'])) for h in r['heads']))
+        body = []
+        for b in r['body']:
+            if b['t'] == 'clause':
+                body.append(('clause', rn(b['rel']), tuple(rn(str(sorted(a.items()))) for a in b['args']), tuple(rn(str(sorted(c.items()))) for c in b['conds'])))
+            else:
+                body.append((b['t'], rn(str(sorted((k, str(v)) for k, v in b.items())))))
+        # conditions attached to clauses float: compare as a flat multiset
+        flat = []
+        for b in body:
+            if b[0] == 'clause':
+                flat.append(b[:3]); flat.extend(('cond', c) for c in b[3])
+            elif b[0] == 'if':
+                flat.append(('cond', b[1]))
+            else:
+                flat.append(b)
+        out.append((heads, tuple(sorted(flat, key=repr))))
+    return sorted(out, key=repr)
